@@ -273,11 +273,17 @@ class Parser:
 
         element = Class(**parameters, **subcircuits)
         element.set_label(label)
+        # The lower limits that are about to be replaced are widened first so
+        # that limits outside of the default limits are not refused because of
+        # the order in which the validating setters are applied.
         element.set_lower_limits(
-            **{k: v for k, v in lower_limits.items() if not isnan(v)}
+            **{k: -inf for k, v in lower_limits.items() if not isnan(v)}
         )
         element.set_upper_limits(
             **{k: v for k, v in upper_limits.items() if not isnan(v)}
+        )
+        element.set_lower_limits(
+            **{k: v for k, v in lower_limits.items() if not isnan(v)}
         )
         element.set_fixed(**fixed_parameters)
 
